@@ -8,7 +8,7 @@
 From Coq Require Import List NArith Bool.
 From V.gen Require Consts PeerIdSites.
 From V.common Require Import Varint Protobuf Sha256.
-From V.C18 Require Import Model Proofs KeyProofs Addr.
+From V.C18 Require Import Model Proofs KeyProofs Addr AddrProofs.
 From V.C19 Require Import Formats.
 Import ListNotations.
 Open Scope N_scope.
@@ -597,3 +597,18 @@ Proof.
   intros enc B. split; [exact (derive_sha256_valid enc B) | exact (derive_sha256_roundtrip enc B)].
 Qed.
 Print Assumptions C18_derived_roundtrip.
+
+(* known-finding class 1 for text and for a binary /p2p component, exactly (these are the length
+   differences the oracle's known_class admits — nothing else is excused) *)
+Theorem C18_text_noncanonical_length :
+  forall t p, of_text t = Some p -> to_text p <> t ->
+    exists b, b58_decode t = Some b /\
+      (length b = length (to_bytes p) + 9 \/ length b = length (to_bytes p) + 18)%nat.
+Proof. exact of_text_noncanonical_length. Qed.
+Print Assumptions C18_text_noncanonical_length.
+
+Theorem C18_component_noncanonical_length :
+  forall b p, of_component b = Some p -> to_component p <> b ->
+    exists e, (length b = length (to_component p) + e)%nat /\ In e [3; 9; 12; 18; 21; 27; 30]%nat.
+Proof. exact of_component_noncanonical_length. Qed.
+Print Assumptions C18_component_noncanonical_length.
